@@ -1,6 +1,8 @@
 package main
 
 import (
+	"go/constant"
+	"sync/atomic"
 	"go/token"
 	"fmt"
 	"go/types"
@@ -260,6 +262,7 @@ func (a *Analysis) Result(ct *CodecType) *TypeResult {
 	r := &TypeResult{CT: ct}
 	r.EncPaths, r.EncErr = a.engineFor(ct.Encode).AnalyzeRoot(ct.Encode, nil)
 	r.EncPaths = expandFrameAlts(r.EncPaths)
+	r.EncPaths = splitPatchedZeroBlocks(r.EncPaths)
 	r.DecPaths, r.DecErr = a.engineFor(ct.Decode).AnalyzeRoot(ct.Decode, nil)
 	for _, p := range r.EncPaths {
 		if pathKind(p) != "ok" {
@@ -325,6 +328,19 @@ func (a *Analysis) encLayout(ct *CodecType, p *Path) *PathLayout {
 		dst := flattenSlice(e.Dst)
 		if dst.Op != "slice" || dst.Args[1] == nil {
 			continue
+		}
+		if f := fieldAtCut(p, fs, dst.Args[1]); f != nil && f.Kind == "const" && f.Order == "zero" && !e.Src.Contains(func(x *Val) bool { return x.Op == "buflen" || x.Op == "bufbytes" }) {
+			// a placeholder filled in afterwards with a value that is not computed from the buffer (a header written
+			// last): the field is that value's field, rendered as the in-place write renders it
+			tmp := *e
+			tmp.Kind, tmp.Size = EvWriteInt, mkInt(typeBytes(typeStr(e.IntType)))
+			if sub := c.extractEnc([]*Event{&tmp}); len(sub) == 1 && sub[0].Kind == "int" {
+				pos, evs, wids := f.Pos, f.Ev, f.WireIDs
+				*f = *sub[0]
+				f.Pos, f.Ev, f.WireIDs = pos, append(evs, e), wids
+				f.Patched = true
+				continue
+			}
 		}
 		if f := fieldAtCut(p, fs, dst.Args[1]); f != nil && f.Kind == "const" {
 			f.Kind = "len"
@@ -844,4 +860,107 @@ func replaceVal(v, old, new *Val) *Val {
 	c := *v
 	c.Args = args
 	return &c
+}
+
+var synthID int64 = 1 << 30
+
+// splitPatchedZeroBlocks: a header reserved as one run of zero bytes and filled in afterwards, field by field, through
+// the buffer's bytes (`buf.Write(hdr[:])` … `PutUint32(frame[0:4], p.MsgType)`): when the in-place writes of the path
+// tile the run exactly, the run is the sequence of number-sized zero placeholders they fill – the form the frame rules
+// know (a placeholder and the PATCH that overwrites it).
+func splitPatchedZeroBlocks(paths []*Path) []*Path {
+	var out []*Path
+	for _, p := range paths {
+		out = append(out, splitPatchedZeroBlock(p))
+	}
+	return out
+}
+
+func splitPatchedZeroBlock(p *Path) *Path {
+	for i, e := range p.Events {
+		if e.Kind != EvWriteBytes || e.Src == nil {
+			continue
+		}
+		lit := stripCT(e.Src)
+		if lit.Op != "arraylit" || len(lit.Args) < 3 || len(lit.Args) > 64 {
+			continue
+		}
+		allZero := true
+		for _, a := range lit.Args {
+			if !isZero(a) {
+				allZero = false
+			}
+		}
+		if !allZero {
+			continue
+		}
+		n := int64(len(lit.Args))
+		// the position of the run: a Len() observation of the same buffer right in front of it
+		var marker *Event
+		for j := i - 1; j >= 0; j-- {
+			x := p.Events[j]
+			if countsAsWire(x) {
+				break
+			}
+			if x.Kind == EvLen && sameBuf(x.Buf, e.Buf) {
+				marker = x
+				break
+			}
+		}
+		if marker == nil {
+			continue
+		}
+		mv := &Val{Op: "buflen", ID: marker.ID, Args: []*Val{marker.Buf}, Type: types.Typ[types.Int]}
+		type tile struct {
+			off, w int64
+			ev     *Event
+		}
+		var tiles []tile
+		for _, x := range p.Events[i+1:] {
+			if x.Kind != EvPatch || x.Dst == nil || x.IntType == nil {
+				continue
+			}
+			fl := flattenSlice(x.Dst)
+			if fl.Op != "slice" || stripCT(fl.Args[0]).Op != "bufbytes" {
+				continue
+			}
+			lo := affConst(0)
+			if fl.Args[1] != nil {
+				lo = affOf(fl.Args[1])
+			}
+			d, isC := lo.Add(affOf(mv), -1).IsConst()
+			w, okW := fixedSize(x.IntType)
+			if !isC || !okW || d < 0 || d+w > n {
+				continue
+			}
+			tiles = append(tiles, tile{d, w, x})
+		}
+		sort.Slice(tiles, func(a, b int) bool { return tiles[a].off < tiles[b].off })
+		off := int64(0)
+		ok := len(tiles) >= 2
+		for _, t := range tiles {
+			if t.off != off {
+				ok = false
+			}
+			off = t.off + t.w
+		}
+		if !ok || off != n {
+			continue
+		}
+		np := *p
+		np.Events = append([]*Event(nil), p.Events[:i]...)
+		for _, t := range tiles {
+			it := map[int64]types.Type{1: types.Typ[types.Uint8], 2: types.Typ[types.Uint16], 4: types.Typ[types.Uint32], 8: types.Typ[types.Uint64]}[t.w]
+			if it == nil {
+				return p
+			}
+			c := *e
+			c.ID = int(atomic.AddInt64(&synthID, 1))
+			c.Kind, c.IntType, c.Order, c.Src, c.Size = EvWriteInt, it, "zero", mkConst(constant.MakeInt64(0), it), mkInt(t.w)
+			np.Events = append(np.Events, &c)
+		}
+		np.Events = append(np.Events, p.Events[i+1:]...)
+		return splitPatchedZeroBlock(&np)
+	}
+	return p
 }
